@@ -25,6 +25,11 @@ def run_case(a):
         files = compound.events_only(files, idx)        # a project that only emits events is generated, cached and re-run like any other
     nmap = rnd.randint(0, 3)
     mappings = dict(rnd.sample([("PathBuf", "string"), ("Uuid", "string"), ("Decimal", "number"), ("DateTime<Utc>", "string"), ("Url", "string")], nmap))
+    if idx % 4 == 1:
+        # a mapping that names types the project itself defines (the mapping replaces them): settings like any other, cached like any other
+        own = sorted({it.name for its in files.values() for it in its if it.kind == "type"})
+        for nm in rnd.sample(own, min(len(own), rnd.randint(1, 2))):
+            mappings[nm] = rnd.choice(["string", "number", "unknown"])
     root = common.scratch("c14")
     viol = []
     st = {"second_runs": 0, "up_to_date": 0, "mutating_calls_on_outputs": 0, "write_test_probes": 0, "forced_runs": 0}
